@@ -320,14 +320,7 @@ vp_bufreader_new(reader)
 request.method() == Method::HEAD
 //@@ =>
 vp_is_head(request.method())
-//@@ rw? R1
-status == StatusCode::NO_CONTENT
-//@@ =>
-vp_is_no_content(status)
-//@@ rw? R1
-status == StatusCode::NOT_MODIFIED
-//@@ =>
-vp_is_not_modified(status)
+//@@ statusmatch
 //@@ rw R1
 reader.take(
 //@@ =>
